@@ -211,6 +211,66 @@ fn c06_read(ctx: &mut Ctx, recs: &[Rec], ser: Ser, container: &str, bytes: &[u8]
     }
 }
 
+fn c06_huge_total(ctx: &mut Ctx, fastq: bool, members: usize) {
+    use std::io::Write;
+    let (nrec, len) = (1024usize, 4096usize);
+    let argv = vec!["case".to_string(), "C06huge".to_string(), (fastq as u8).to_string(), members.to_string()];
+    ctx.journal.note(|| format!("C06 huge total fastq={fastq} members={members}"));
+    let mut text: Vec<u8> = Vec::with_capacity(nrec * (2 * len + 20));
+    for i in 0..nrec {
+        let bases = long_bases(len, i);
+        if fastq {
+            text.extend_from_slice(format!("@r{} d\n", i).as_bytes());
+            text.extend_from_slice(&bases);
+            text.extend_from_slice(b"\n+\n");
+            text.extend(std::iter::repeat(b'I').take(len));
+            text.push(b'\n');
+        } else {
+            text.extend_from_slice(format!(">r{} d\n", i).as_bytes());
+            text.extend_from_slice(&bases);
+            text.push(b'\n');
+        }
+    }
+    let mut e = flate2::write::GzEncoder::new(Vec::new(), flate2::Compression::fast());
+    e.write_all(&text).unwrap();
+    let member = e.finish().unwrap();
+    let path = format!("{}/c06huge.{}.gz", ctx.scratch, if fastq { "fq" } else { "fa" });
+    {
+        let mut f = std::io::BufWriter::new(std::fs::File::create(&path).unwrap());
+        for _ in 0..members {
+            f.write_all(&member).unwrap();
+        }
+    }
+    let fmt = SeqFormat::get(&path).unwrap();
+    ctx.rep.evaluations += 1;
+    let got = guard(|| {
+        let seqs = Sequences::new(SeqFormat::get(&path).unwrap(), get_reader(&path).unwrap()).unwrap();
+        let (mut n, mut total, mut numbering_ok) = (0usize, 0u64, true);
+        for s in seqs {
+            numbering_ok &= s.n == n;
+            n += 1;
+            total += s.seq.len() as u64;
+        }
+        let st = Sequences::seq_stats(fmt, get_reader(&path).unwrap());
+        (n, total, numbering_ok, st.seq_count, st.total_length as u64)
+    });
+    let _ = std::fs::remove_file(&path);
+    let what = format!("{} gzip members of {nrec} {} records of {len} bases ({} bases in all)", members, if fastq { "FASTQ" } else { "FASTA" }, members * nrec * len);
+    match got {
+        Err(p) => viol(ctx, "panic", 1 << 30, format!("reading {what}: panicked: {p}"), argv),
+        Ok((n, total, numbering_ok, sc, tl)) => {
+            let (en, et) = (members * nrec, (members * nrec * len) as u64);
+            if n != en || total != et || !numbering_ok {
+                viol(ctx, "record-count", 1 << 30, format!("reading {what}: the iterator delivered {n} records with {total} bases (numbered without gaps: {numbering_ok}), expected {en} and {et}"), argv)
+            } else if sc != en || tl != et {
+                viol(ctx, "stats", 1 << 30, format!("reading {what}: seq_stats = ({sc} records, {tl} bases), iteration delivered ({n}, {total})"), argv)
+            } else {
+                ctx.rep.nontrivial += 1;
+            }
+        }
+    }
+}
+
 fn rec_variants() -> Vec<Rec> {
     let mut v = Vec::new();
     for h in ["a", "b12 desc >more @x +y", ""] {
@@ -464,6 +524,14 @@ pub fn c06(ctx: &mut Ctx) {
                 c06_read(ctx, &recs, ser, cont, &bytes, case_no, argv);
                 ctx.rep.count("files.many_records", 1);
             }
+        }
+    }
+    // more bases in one file than 32 bits can count: a multi-member gzip whose members are ordinary (1024 records of
+    // 4096 bases each), read once by the iterator and once by the statistics pass, both streaming
+    for (fastq, members) in [(false, 1024usize), (true, 1025)] {
+        if sh.mine() {
+            c06_huge_total(ctx, fastq, members);
+            ctx.rep.count("files.huge_total", 1);
         }
     }
     // very long header lines (id and description beyond the usual 8 KiB line buffers)
@@ -761,6 +829,8 @@ pub fn c07_configs(ctx: &mut Ctx) {
     }
     big.push(((0..40).map(|i| fill(b"AC", 5 + i % 7)).collect(), 3));
     big.push(((0..64).map(|_| b"AAAAAAAAAA".to_vec()).collect(), 4));
+    big.push((crate::vecs::repeating_records(), 4));
+    big.push((crate::vecs::repeating_records(), 10));
     big.push(((0..3000usize).map(|i| long_bases(2 + i % 11, i)).collect(), 3));
     for (recs, k) in &big {
         // ceilings are scaled to the input so that the chunk x partition grid stays in the hundreds of files
@@ -1130,6 +1200,24 @@ pub fn c08(ctx: &mut Ctx) {
             }
         }
     }
+    // both cases and U (the table is keyed by canonical codes, so these records hit the same entries)
+    {
+        let mut todo10: Vec<Vec<u8>> = Vec::new();
+        for_each_string(crate::enumr::S10, 1, ctx.pick(4, 5), |s| {
+            if sh.mine() && s.iter().any(|b| !b"ACGT".contains(b)) {
+                todo10.push(s.to_vec());
+            }
+        });
+        for k in 1..=3usize {
+            for &(bs, bc) in &[(1usize, 3usize), (2, 5)] {
+                let table = synthetic_table(k, bs, bc);
+                for s in &todo10 {
+                    c08_one(ctx, s, k, &table, bs, bc);
+                    n += 1;
+                }
+            }
+        }
+    }
     // long records
     for (len, seed) in [(4097usize, 1u64), (20_000, 3), (70_000, 4)] {
         let s = crate::iters::long_input(len, seed);
@@ -1201,6 +1289,7 @@ pub fn c08(ctx: &mut Ctx) {
         ("empty-last", vec![b"ACG".to_vec(), b"".to_vec()]),
         ("only-empty", vec![b"".to_vec()]),
         ("all-N", vec![b"NNN".to_vec(), b"N".to_vec()]),
+        ("repeating", crate::vecs::repeating_records()),
     ];
     let mut n = 0u64;
     for (_tag, recs) in &sets {
@@ -1297,6 +1386,7 @@ pub fn replay(ctx: &mut Ctx, args: &[String]) {
             let bytes = container_bytes(&text, &bounds, &args[3]);
             c06_read(ctx, &recs, ser, &args[3], &bytes, 0, vec![]);
         }
+        "C06huge" => c06_huge_total(ctx, args[1] == "1", args[2].parse().unwrap()),
         "C06many" => {
             let nrec: usize = args[1].parse().unwrap();
             let ser = Ser::parse(&args[2]);
